@@ -11,6 +11,7 @@ mk() { # name CN ku eku san
   openssl x509 -req $V -in "$1.csr" -CA caA.cert.pem -CAkey caA.key.pem -out "$1.cert.pem" -extfile "$1.ext" -not_before $VB -not_after $VA -sm3 $D -set_serial $RANDOM$RANDOM 2>/dev/null
   rm -f "$1.csr" "$1.ext"
 }
+if [ ! -f srvekucli-sign.cert.pem ]; then
 # server pair whose extended key usage is clientAuth only (must be rejected by a verifying client)
 mk srvekucli-sign "server.sim sign" digitalSignature clientAuth server.sim
 mk srvekucli-enc  "server.sim enc"  keyEncipherment,dataEncipherment,keyAgreement clientAuth server.sim
@@ -20,6 +21,7 @@ mk cliekusrv "client one" digitalSignature serverAuth ""
 mk srvkubad-sign "server.sim sign" keyEncipherment serverAuth,clientAuth server.sim
 mk srvkubad-enc  "server.sim enc"  digitalSignature serverAuth,clientAuth server.sim
 for c in srvekucli-sign srvekucli-enc cliekusrv srvkubad-sign srvkubad-enc; do openssl verify $V -CAfile caA.cert.pem $c.cert.pem; done
+fi
 # second TLS identity (RSA root) for name-based certificate selection
 if [ ! -f tlsrsa2.cert.pem ]; then
   openssl genpkey -algorithm RSA -pkeyopt rsa_keygen_bits:2048 -out tlsrsa2.key.pem 2>/dev/null
@@ -28,4 +30,19 @@ if [ ! -f tlsrsa2.cert.pem ]; then
   openssl x509 -req -in t.csr -CA rsaCA.cert.pem -CAkey rsaCA.key.pem -out tlsrsa2.cert.pem -extfile t.ext -not_before $VB -not_after $VA -sha256 -set_serial 9090 2>/dev/null
   rm -f t.csr t.ext
   openssl verify -CAfile rsaCA.cert.pem tlsrsa2.cert.pem
+fi
+# wave 4: a signing certificate that also carries keyEncipherment (dual usage), with its genuine encryption partner;
+# an RSA client certificate from the RSA root whose key usage is keyEncipherment only
+if [ ! -f srvdual-sign.cert.pem ]; then
+  mk srvdual-sign "server.sim sign" digitalSignature,keyEncipherment serverAuth,clientAuth server.sim
+  mk srvdual-enc  "server.sim enc"  keyEncipherment,dataEncipherment,keyAgreement serverAuth,clientAuth server.sim
+  for c in srvdual-sign srvdual-enc; do openssl verify $V -CAfile caA.cert.pem $c.cert.pem; done
+fi
+if [ ! -f tlsclienc.cert.pem ]; then
+  openssl genpkey -algorithm RSA -pkeyopt rsa_keygen_bits:2048 -out tlsclienc.key.pem 2>/dev/null
+  { echo "basicConstraints=critical,CA:FALSE"; echo "keyUsage=critical,keyEncipherment"; echo "extendedKeyUsage=clientAuth"; echo "subjectKeyIdentifier=hash"; echo "authorityKeyIdentifier=keyid"; } > t.ext
+  openssl req -new -key tlsclienc.key.pem -subj "/C=CN/O=verifsim/CN=client enc-only" -out t.csr -sha256
+  openssl x509 -req -in t.csr -CA rsaCA.cert.pem -CAkey rsaCA.key.pem -out tlsclienc.cert.pem -extfile t.ext -not_before $VB -not_after $VA -sha256 -set_serial 9191 2>/dev/null
+  rm -f t.csr t.ext
+  openssl verify -CAfile rsaCA.cert.pem tlsclienc.cert.pem
 fi
